@@ -398,7 +398,7 @@ pub fn run(args: &Args) -> Report {
         ks: if thorough { vec![0, 1, 2, 3] } else { vec![0, 1, 2] },
         env: 0,
         fault: 1,
-        total_wall: Duration::from_secs(if thorough { 1500 } else { 50 }),
+        total_wall: Duration::from_secs(if thorough { 1500 } else { 100 }),
         max_execs_per_case: 100_000,
         required_witnesses: W_EOF_SEEN | W_BROKEN_PIPE | W_HALF_CLOSE_DATA | W_RESET | W_CONN_END,
         adaptive: thorough,
